@@ -47,6 +47,8 @@ inductive OpKind where
   | readat (c off cap : Nat)
   | splice (cin cout len : Nat)
   | readf (c cap : Nat)
+  /-- `ReadMulti` with the driver's buffer pool: multishot on io_uring, one managed read on polling -/
+  | rmulti (c : Nat)
 deriving Repr
 
 structure Os where
@@ -57,11 +59,15 @@ structure Os where
   ops : Id → Option OpKind := fun _ => none
   /-- what an operation's buffer holds after completion -/
   got : Id → Bytes := fun _ => []
+  /-- payloads of the multishot items posted for an operation, oldest first -/
+  items : Id → List Bytes := fun _ => []
 
 instance : Inhabited Os := ⟨{}⟩
 
 def EPIPE : Nat := 32
 def pageSize : Nat := 4096
+/-- `buffer_pool_buffer_len` default -/
+def poolBufLen : Nat := 8192
 
 def Chan.used (ch : Chan) : Nat := ch.wbuf.length + (if ch.filled then pageSize else 0)
 
@@ -135,6 +141,7 @@ def perform (os : Os) (id : Id) : Option Res × Os :=
   | some (.read c cap) => doRead os id c cap
   | some (.recv c cap) => doRead os id c cap
   | some (.readf c cap) => doReadAt os id c 0 cap
+  | some (.rmulti c) => doRead os id c poolBufLen
   | some (.write c data) => doPipeWrite os c data
   | some (.send c data) => doSend os c data
   | some (.ponce c d) =>
@@ -165,6 +172,7 @@ def decide (os : Os) (id : Id) : Decision × Os :=
   | none => (.fail 9, os)
   | some (.read c _) => (.wait [(c, .read)], os)
   | some (.readf c _) => (.wait [(c, .read)], os)
+  | some (.rmulti c) => (.wait [(c, .read)], os)
   | some (.write c _) => (.wait [(c, .write)], os)
   | some (.ponce c d) => (.wait [(c, d)], os)
   | some (.recv c _) =>
@@ -198,11 +206,31 @@ def firedNow (s : St Os) : List Nat → List Fired
 
 /-! ### io_uring kernel side -/
 
+/-- a multishot read that is armed (or being issued): every chunk of available data is one CQE with the
+    `more` flag; end of stream is the final CQE.  Returns the CQEs and whether the request stays armed. -/
+def multiStep (os : Os) (id : Id) (c : Nat) : Os × List Cqe × Bool :=
+  let ch := os.chans c
+  if !ch.rbuf.isEmpty then
+    let n := min poolBufLen ch.rbuf.length
+    let os1 := { setChan os c { ch with rbuf := ch.rbuf.drop n } with
+                 items := upd os.items id (os.items id ++ [ch.rbuf.take n]) }
+    if ch.eof && (ch.rbuf.drop n).isEmpty then
+      (os1, [⟨.key id, .ok n, true⟩, ⟨.key id, .ok 0, false⟩], false)
+    else (os1, [⟨.key id, .ok n, true⟩], true)
+  else if ch.eof then (os, [⟨.key id, .ok 0, false⟩], false)
+  else (os, [], true)
+
 /-- issue the staged SQEs in order: an operation that can complete posts its CQE, otherwise it stays armed;
     `AsyncCancel` of an armed operation completes it with ECANCELED -/
 def issue (os : Os) (armed : List Id) : List Sqe → Os × List Id × List Cqe
   | [] => (os, armed, [])
   | .op id :: rest =>
+    match os.ops id with
+    | some (.rmulti c) =>
+      let (os', cs0, stay) := multiStep os id c
+      let (os2, a2, cs) := issue os' (if stay then armed ++ [id] else armed) rest
+      (os2, a2, cs0 ++ cs)
+    | _ =>
     match perform os id with
     | (some r, os') =>
       let (os2, a2, cs) := issue os' armed rest
@@ -221,6 +249,12 @@ def issue (os : Os) (armed : List Id) : List Sqe → Os × List Id × List Cqe
 def retry (os : Os) : List Id → Os × List Id × List Cqe
   | [] => (os, [], [])
   | id :: rest =>
+    match os.ops id with
+    | some (.rmulti c) =>
+      let (os', cs0, stay) := multiStep os id c
+      let (os2, a2, cs) := retry os' rest
+      (os2, if stay then id :: a2 else a2, cs0 ++ cs)
+    | _ =>
     match perform os id with
     | (some r, os') =>
       let (os2, a2, cs) := retry os' rest
